@@ -23,7 +23,7 @@
 use std::{
     io,
     pin::Pin,
-    task::{Context, Poll, ready},
+    task::{Context, Poll, Waker, ready},
 };
 
 use compio_buf::IntoInner;
@@ -178,6 +178,7 @@ pin_project! {
         #[pin]
         inner: async_tungstenite::WebSocketStream<MaybePollStream<S>>,
         next_item: Option<Option<Result<Message, WsError>>>,
+        write_waker: Option<Waker>,
     }
 }
 
@@ -244,6 +245,7 @@ impl<S: AsFd + 'static> WebSocketStream<S> {
         WebSocketStream {
             inner,
             next_item: None,
+            write_waker: None,
         }
     }
 
@@ -282,24 +284,33 @@ impl<S: AsFd + 'static> Sink<Message> for WebSocketStream<S> {
     type Error = WsError;
 
     fn poll_ready(self: Pin<&mut Self>, cx: &mut Context<'_>) -> Poll<Result<(), WsError>> {
-        self.project().inner.poll_ready(cx)
+        let this = self.project();
+        let res = this.inner.poll_ready(cx);
+        *this.write_waker = res.is_pending().then(|| cx.waker().clone());
+        res
     }
 
     fn start_send(self: Pin<&mut Self>, item: Message) -> Result<(), Self::Error> {
         self.project().inner.start_send(item)
     }
 
-    fn poll_flush(mut self: Pin<&mut Self>, cx: &mut Context<'_>) -> Poll<Result<(), Self::Error>> {
-        ready!(self.as_mut().project().inner.poll_flush(cx))?;
+    fn poll_flush(self: Pin<&mut Self>, cx: &mut Context<'_>) -> Poll<Result<(), Self::Error>> {
+        let mut this = self.project();
+        *this.write_waker = Some(cx.waker().clone());
+        ready!(this.inner.as_mut().poll_flush(cx))?;
         ready!(futures_util::AsyncWrite::poll_flush(
-            Pin::new(self.project().inner.get_mut().get_mut()),
+            Pin::new(this.inner.get_mut().get_mut()),
             cx
         ))?;
+        *this.write_waker = None;
         Poll::Ready(Ok(()))
     }
 
     fn poll_close(self: Pin<&mut Self>, cx: &mut Context<'_>) -> Poll<Result<(), Self::Error>> {
-        self.project().inner.poll_close(cx)
+        let this = self.project();
+        let res = this.inner.poll_close(cx);
+        *this.write_waker = res.is_pending().then(|| cx.waker().clone());
+        res
     }
 }
 
@@ -314,13 +325,23 @@ impl<S: AsFd + 'static> Stream for WebSocketStream<S> {
                 // that has been read does not wait for them: with a large message of our
                 // own under way the flush only completes once the peer reads, and a peer
                 // doing the same would wait for us for ever.
-                if let Poll::Ready(res) = this.inner.as_mut().poll_flush(cx) {
+                //
+                // The flush registers its waker for writability. If a task is parked in
+                // `poll_ready` or `poll_flush` (the other half of a `split()`), it is the
+                // one that has to be woken, not the reader.
+                let waker = this.write_waker.as_ref().unwrap_or(cx.waker()).clone();
+                let mut wcx = Context::from_waker(&waker);
+                if let Poll::Ready(res) = this.inner.as_mut().poll_flush(&mut wcx) {
                     res?;
                     if let Poll::Ready(res) = futures_util::AsyncWrite::poll_flush(
                         Pin::new(this.inner.get_mut().get_mut()),
-                        cx,
+                        &mut wcx,
                     ) {
                         res?;
+                        // what the parked task was waiting for has happened here
+                        if let Some(waker) = this.write_waker.take() {
+                            waker.wake();
+                        }
                     }
                 }
                 break Poll::Ready(this.next_item.take().expect("next_item should be Some"));
